@@ -652,6 +652,290 @@ theorem filter_scan {α : Type} (books : List Book) (hs : Sorted Book.key books)
       simp
 
 -- ---------------------------------------------------------------------------------------------
+-- x/orderbook import: every `Set*` of InitGenesis modifies one book of the nested core state in place
+
+/-- replacing the record stored under a key -/
+theorem upsert_replace {α : Type} (key : α → List Nat) (x : α) (l : List α) (hs : Sorted key l)
+    (hex : ∃ b ∈ l, key b = key x) : upsert key x l = l.map (fun y => if key y == key x then x else y) := by
+  induction l with
+  | nil => obtain ⟨b, hb, _⟩ := hex; cases hb
+  | cons y ys ih =>
+    have hs' := hs
+    unfold Sorted at hs'
+    rw [List.pairwise_cons] at hs'
+    unfold upsert
+    by_cases hyx : (key y == key x) = true
+    · simp only [hyx, ↓reduceIte, List.map_cons, List.cons.injEq, true_and]
+      symm
+      conv => rhs; rw [← List.map_id ys]
+      apply List.map_congr_left
+      intro z hz
+      have hlt := hs'.1 z hz
+      have e : key y = key x := by simpa using hyx
+      rw [e] at hlt
+      have : (key z == key x) = false := by
+        cases hc : key z == key x
+        · rfl
+        · have e2 : key z = key x := by simpa using hc
+          rw [e2, ltL_irrefl] at hlt; cases hlt
+      simp [this]
+    · have hyx' : (key y == key x) = false := by simpa using hyx
+      obtain ⟨b, hb, hkb⟩ := hex
+      have hbys : b ∈ ys := by
+        rcases List.mem_cons.mp hb with e | e
+        · subst e; rw [hkb] at hyx'; simp at hyx'
+        · exact e
+      have hlt : ltL (key y) (key x) = true := by rw [← hkb]; exact hs'.1 b hbys
+      simp only [hyx', Bool.false_eq_true, ↓reduceIte, ltL_asymm _ _ hlt, List.map_cons, List.cons.injEq, true_and]
+      exact ih hs'.2 ⟨b, hbys, hkb⟩
+
+theorem sorted_map_key {α : Type} (key : α → List Nat) (g : α → α) (l : List α) (hs : Sorted key l)
+    (hk : ∀ a, key (g a) = key a) : Sorted key (l.map g) := by
+  unfold Sorted at hs ⊢
+  rw [List.pairwise_map]
+  exact hs.imp (fun {a b} h => by rw [hk, hk]; exact h)
+
+theorem getBook_eq_some (s : State) (u : Nat) (b : Book) (h : getBook s u = some b) : b ∈ s.books ∧ b.uid = u := by
+  unfold getBook lookup at h
+  have h1 := List.mem_of_find?_eq_some h
+  have h2 := List.find?_some h
+  exact ⟨h1, by simpa [Book.key] using h2⟩
+
+theorem getBook_eq_none (s : State) (u : Nat) (h : getBook s u = none) : ∀ b ∈ s.books, b.uid ≠ u := by
+  unfold getBook lookup at h
+  intro b hb hu
+  have := List.find?_eq_none.mp h b hb
+  simp [Book.key, hu] at this
+
+/-- `onBook`: the book `u` is modified in place, every other store is untouched -/
+theorem onBook_books (s : State) (hs : Sorted Book.key s.books) (u : Nat) (f : Book → Book) (hf : ∀ b, (f b).uid = b.uid) :
+    (onBook s u f).books = s.books.map (fun b => if b.uid == u then f b else b) ∧ (onBook s u f).bets = s.bets ∧
+    (onBook s u f).obqueue = s.obqueue ∧ (onBook s u f).params = s.params := by
+  unfold onBook
+  split
+  · rename_i b hb
+    obtain ⟨hmem, hu⟩ := getBook_eq_some s u b hb
+    refine ⟨?_, rfl, rfl, rfl⟩
+    show upsert Book.key (f b) s.books = _
+    rw [upsert_replace Book.key (f b) s.books hs ⟨b, hmem, by simp [Book.key, hf]⟩]
+    apply List.map_congr_left
+    intro y hy
+    by_cases hyu : y.uid = u
+    · have : y = b := book_uid_inj s.books hs y b hy hmem (by rw [hyu, hu])
+      subst this
+      simp [Book.key, hf, hyu]
+    · have : ¬ y.uid = b.uid := by rw [hu]; exact hyu
+      simp [Book.key, hf, hyu, this]
+  · rename_i hb
+    refine ⟨?_, rfl, rfl, rfl⟩
+    conv => lhs; rw [← List.map_id s.books]
+    apply List.map_congr_left
+    intro y hy
+    have := getBook_eq_none s u hb y hy
+    simp [this]
+
+/-- the operations tagged with the uid of `b`, applied to `b` in order -/
+def applyOps (ops : List (Nat × (Book → Book))) (b : Book) : Book :=
+  (ops.filter (fun o => o.1 == b.uid)).foldl (fun b o => o.2 b) b
+
+theorem applyOps_uid (ops : List (Nat × (Book → Book))) (hf : ∀ o ∈ ops, ∀ b, (o.2 b).uid = b.uid) (b : Book) :
+    (applyOps ops b).uid = b.uid := by
+  unfold applyOps
+  induction ops generalizing b with
+  | nil => rfl
+  | cons o os ih =>
+    simp only [List.filter_cons]
+    split
+    · simp only [List.foldl_cons]
+      have h1 := hf o (List.mem_cons_self ..) b
+      have := ih (fun o' ho' => hf o' (List.mem_cons_of_mem _ ho')) (o.2 b)
+      rw [h1] at this
+      exact this
+    · exact ih (fun o' ho' => hf o' (List.mem_cons_of_mem _ ho')) b
+
+theorem foldl_onBook (ops : List (Nat × (Book → Book))) (hf : ∀ o ∈ ops, ∀ b, (o.2 b).uid = b.uid) (s : State)
+    (hs : Sorted Book.key s.books) :
+    let r := ops.foldl (fun acc o => onBook acc o.1 o.2) s
+    r.books = s.books.map (applyOps ops) ∧ r.bets = s.bets ∧ r.obqueue = s.obqueue ∧ r.params = s.params := by
+  induction ops generalizing s with
+  | nil =>
+    refine ⟨?_, rfl, rfl, rfl⟩
+    show s.books = s.books.map (applyOps [])
+    conv => lhs; rw [← List.map_id s.books]
+    apply List.map_congr_left
+    intro b _
+    rfl
+  | cons o os ih =>
+    simp only [List.foldl_cons]
+    have hfo := hf o (List.mem_cons_self ..)
+    obtain ⟨e1, e2, e3, e4⟩ := onBook_books s hs o.1 o.2 hfo
+    have hs' : Sorted Book.key (onBook s o.1 o.2).books := by
+      rw [e1]
+      apply sorted_map_key _ _ _ hs
+      intro a
+      by_cases h : a.uid == o.1 <;> simp [h, Book.key, hfo]
+    have := ih (fun o' ho' => hf o' (List.mem_cons_of_mem _ ho')) (onBook s o.1 o.2) hs'
+    simp only at this
+    obtain ⟨h1, h2, h3, h4⟩ := this
+    refine ⟨?_, by rw [h2, e2], by rw [h3, e3], by rw [h4, e4]⟩
+    rw [h1, e1, List.map_map]
+    apply List.map_congr_left
+    intro b _
+    simp only [Function.comp, applyOps, List.filter_cons]
+    by_cases hbu : b.uid = o.1
+    · have : (o.1 == b.uid) = true := by simp [hbu]
+      simp [hbu, hfo]
+    · have h1 : (b.uid == o.1) = false := by simpa using hbu
+      have h2 : (o.1 == b.uid) = false := by simpa using (fun e => hbu e.symm)
+      simp [h1, h2]
+
+/-- the book record `SetOrderBook` writes into an empty store -/
+def skelOf (r : BookRec) : Book :=
+  { uid := r.uid, partCount := r.partCount, oddsCount := r.oddsCount, status := r.status, queues := [] }
+
+theorem getBook_none_of_lt (s : State) (u : Nat) (h : ∀ b ∈ s.books, ltL (Book.key b) [u] = true) : getBook s u = none := by
+  unfold getBook lookup
+  rw [List.find?_eq_none]
+  intro b hb
+  have := ltL_ne _ _ (h b hb)
+  simp [this]
+
+theorem foldl_setBookRec (l : List BookRec) (s : State) (h : Sorted Book.key (s.books ++ l.map skelOf)) :
+    let r := l.foldl setBookRec s
+    r.books = s.books ++ l.map skelOf ∧ r.bets = s.bets ∧ r.obqueue = s.obqueue ∧ r.params = s.params := by
+  induction l generalizing s with
+  | nil => simp
+  | cons x xs ih =>
+    simp only [List.foldl_cons]
+    have hlt : ∀ b ∈ s.books, ltL (Book.key b) [x.uid] = true := by
+      intro b hb
+      unfold Sorted at h
+      rw [List.pairwise_append] at h
+      exact h.2.2 b hb (skelOf x) (by simp)
+    have hstep : setBookRec s x = { s with books := s.books ++ [skelOf x] } := by
+      unfold setBookRec
+      rw [getBook_none_of_lt s x.uid hlt]
+      simp only [setBook]
+      rw [upsert_append Book.key _ s.books (by intro y hy; exact hlt y hy)]
+      rfl
+    rw [hstep]
+    have := ih { s with books := s.books ++ [skelOf x] } (by simpa using h)
+    simp only at this
+    obtain ⟨a, b, c, d⟩ := this
+    exact ⟨by rw [a]; simp, b, c, d⟩
+
+theorem applyOps_scan {α : Type} (B : List Book) (hs : Sorted Book.key B) (f : Book → List α) (act : α → Book → Book)
+    (b : Book) (hb : b ∈ B) (bk : Book) (hu : bk.uid = b.uid) :
+    applyOps ((scan B f).map (fun x => (x.1, act x.2))) bk = (f b).foldl (fun acc y => act y acc) bk := by
+  unfold applyOps
+  rw [hu, List.filter_map]
+  have : (scan B f).filter ((fun (o : Nat × (Book → Book)) => o.1 == b.uid) ∘ fun x => (x.1, act x.2)) =
+      (scan B f).filter (fun x => x.1 == b.uid) := rfl
+  rw [this, filter_scan B hs f b hb, List.map_map, List.foldl_map]
+  rfl
+
+theorem foldl_setPart (ps : List Part) (bk : Book) :
+    ps.foldl (fun acc p => acc.setPart p) bk = { bk with parts := setAll Part.key ps bk.parts } := by
+  induction ps generalizing bk with
+  | nil => rfl
+  | cons x xs ih => simp only [List.foldl_cons]; rw [ih]; rfl
+
+theorem foldl_setQueue (qs : List (Nat × List Nat)) (bk : Book) :
+    qs.foldl (fun acc q => acc.setQueue q.1 q.2) bk = { bk with queues := setAll (fun (x : Nat × List Nat) => [x.1]) qs bk.queues } := by
+  induction qs generalizing bk with
+  | nil => rfl
+  | cons x xs ih => simp only [List.foldl_cons]; rw [ih]; rfl
+
+theorem foldl_setExp (es : List PExp) (bk : Book) :
+    es.foldl (fun acc e => acc.setExp e) bk = { bk with pexps := setAll PExp.key es bk.pexps } := by
+  induction es generalizing bk with
+  | nil => rfl
+  | cons x xs ih => simp only [List.foldl_cons]; rw [ih]; rfl
+
+theorem foldl_setHist (es : List PExp) (bk : Book) :
+    es.foldl (fun acc e => acc.setHist e) bk = { bk with hist := setAll PExp.hkey es bk.hist } := by
+  induction es generalizing bk with
+  | nil => rfl
+  | cons x xs ih => simp only [List.foldl_cons]; rw [ih]; rfl
+
+theorem foldl_addPair (xs : List (Nat × Nat)) (bk : Book) :
+    xs.foldl (fun acc x => acc.addPair x.1 x.2) bk = { bk with pairs := setAll (fun (x : Nat × Nat) => [x.1, x.2]) xs bk.pairs } := by
+  induction xs generalizing bk with
+  | nil => rfl
+  | cons x xs ih => simp only [List.foldl_cons]; rw [ih]; rfl
+
+theorem noDup_inj {α : Type} (f : α → Nat) (l : List α) (h : hasDup (l.map f) = false) (a b : α)
+    (ha : a ∈ l) (hb : b ∈ l) (e : f a = f b) : a = b := by
+  induction l with
+  | nil => cases ha
+  | cons x xs ih =>
+    simp only [List.map_cons, hasDup, Bool.or_eq_false_iff] at h
+    have hnot : ∀ y ∈ xs, f y ≠ f x := by
+      intro y hy he
+      have : (xs.map f).contains (f x) = true := by
+        rw [List.contains_iff_mem]
+        exact List.mem_map.mpr ⟨y, hy, he⟩
+      rw [this] at h
+      cases h.1
+    rcases List.mem_cons.mp ha with ea | ha'
+    · rcases List.mem_cons.mp hb with eb | hb'
+      · rw [ea, eb]
+      · exact absurd (by rw [← e, ea]) (hnot b hb')
+    · rcases List.mem_cons.mp hb with eb | hb'
+      · exact absurd (by rw [e, eb]) (hnot a ha')
+      · exact ih h.2 ha' hb'
+
+/-- bet id → bet uid (export) → bet id (import) is the identity on stored bets -/
+theorem betId_roundtrip (σ s : State) (hs : s.bets = σ.bets) (hu : hasDup (σ.bets.map (·.uid)) = false)
+    (hi : hasDup (σ.bets.map (·.id)) = false) (id : Nat) (hex : σ.bets.any (fun t => t.id == id) = true) :
+    betIdOf s (betUidOf σ id) = some id := by
+  rw [List.any_eq_true] at hex
+  obtain ⟨t, ht, hid⟩ := hex
+  have hid : t.id = id := by simpa using hid
+  unfold betUidOf
+  cases h1 : σ.bets.find? (fun b => b.id == id) with
+  | none =>
+    have := List.find?_eq_none.mp h1 t ht
+    simp [hid] at this
+  | some t' =>
+    have m1 := List.mem_of_find?_eq_some h1
+    have p1 : t'.id = id := by simpa using List.find?_some h1
+    simp only
+    unfold betIdOf
+    rw [hs]
+    cases h2 : σ.bets.find? (fun b => b.uid == t'.uid) with
+    | none =>
+      have := List.find?_eq_none.mp h2 t' m1
+      simp at this
+    | some t'' =>
+      have m2 := List.mem_of_find?_eq_some h2
+      have p2 : t''.uid = t'.uid := by simpa using List.find?_some h2
+      have : t'' = t' := noDup_inj (·.uid) σ.bets hu t'' t' m2 m1 p2
+      simp [this, p1]
+
+/-- the bet-pair loop when every bet uid resolves: the same in-place modifications with the ids restored -/
+theorem foldl_importPair (σ : State) (hu : hasDup (σ.bets.map (·.uid)) = false) (hi : hasDup (σ.bets.map (·.id)) = false)
+    (l : List (Nat × Nat × Nat)) (hl : ∀ y ∈ l, σ.bets.any (fun t => t.id == y.2.2) = true)
+    (s : State) (hs : s.bets = σ.bets) (hsort : Sorted Book.key s.books) :
+    (l.map (fun y => (y.1, y.2.1, betUidOf σ y.2.2))).foldl importPair (some s) =
+      some ((l.map (fun y => (y.1, fun (b : Book) => b.addPair y.2.1 y.2.2))).foldl (fun acc o => onBook acc o.1 o.2) s) := by
+  induction l generalizing s with
+  | nil => rfl
+  | cons y ys ih =>
+    simp only [List.map_cons, List.foldl_cons]
+    have hr := betId_roundtrip σ s hs hu hi y.2.2 (hl y (List.mem_cons_self ..))
+    have step : importPair (some s) (y.1, y.2.1, betUidOf σ y.2.2) = some (onBook s y.1 (fun b => b.addPair y.2.1 y.2.2)) := by
+      simp [importPair, hr]
+    rw [step]
+    have hob := onBook_books s hsort y.1 (fun b => b.addPair y.2.1 y.2.2) (fun _ => rfl)
+    apply ih (fun z hz => hl z (List.mem_cons_of_mem _ hz))
+    · rw [hob.2.1, hs]
+    · rw [hob.1]
+      apply sorted_map_key _ _ _ hsort
+      intro a
+      by_cases h : a.uid == y.1 <;> simp [h, Book.key, Book.addPair]
+
+-- ---------------------------------------------------------------------------------------------
 -- x/ovm proposal stores (sorted by id)
 
 def SortedIds (l : List Ovm.Proposal) : Prop := l.Pairwise (fun a b => a.id < b.id)
